@@ -6,8 +6,65 @@ _SENT = object()
 N_VARIANTS = 4
 
 
+class _Plain:
+    """default comparison: unusable as an object key"""
+
+
+def bad_key(fam):
+    c = fam[0]
+    if c == 'O':
+        return _Plain()
+    if c == 'f':
+        return b'abc'          # wrong length
+    return 'not-an-int'
+
+
+def bad_val(fam):
+    c = fam[1]
+    if c == 'O':
+        return _SENT            # every object is a usable value: nothing to try
+    if c == 's':
+        return b'1234567'       # wrong length
+    if c == 'F':
+        return 'not-a-float'
+    return 'not-an-int'
+
+
+def _bad(t, emb, a, variant, is_set):
+    """a write with an unusable key or value; every spelling must raise TypeError"""
+    fam = emb.fam
+    if a['op'] == 'badkey':
+        k = bad_key(fam)
+        v = 1 if is_set else emb.val(1)
+        # (deleting an unusable key is left to C09: the C object-key families answer
+        #  KeyError or TypeError depending on the stored keys -- finding D28)
+        ops = ([lambda: t.add(k), lambda: t.update([k]), lambda: t.insert(k)] if is_set else
+               [lambda: t.__setitem__(k, v), lambda: t.update([(k, v)]), lambda: t.setdefault(k, v)]
+               + ([lambda: t.insert(k, v)] if hasattr(t, 'insert') else []))
+    else:
+        k = emb.key(a['k'])
+        v = bad_val(fam)
+        if v is _SENT or is_set:
+            return ['TypeError']    # not applicable: nothing unusable to offer
+        ops = [lambda: t.__setitem__(k, v), lambda: t.update([(k, v)]), lambda: t.update({k: v})]
+        if k not in t:
+            # (with k present C returns the stored value unvalidated: recorded under C09)
+            ops.append(lambda: t.setdefault(k, v))
+            if hasattr(t, 'insert'):
+                ops.append(lambda: t.insert(k, v))
+    try:
+        ops[variant % len(ops)]()
+    except TypeError:
+        return ['TypeError']
+    except Exception as e:
+        return ['exc', type(e).__name__]
+    return ['ok']
+
+
 def apply_map(t, emb, a, variant=0):
     op = a['op']
+    if op.startswith('bad'):
+        return _bad(t, emb, a, variant, False)
     k = emb.key(a['k']) if a['k'] else None
     v = emb.val(a['v']) if a['v'] else None
     try:
@@ -59,6 +116,8 @@ def apply_map(t, emb, a, variant=0):
 def apply_set(t, emb, a, variant=0):
     """the same model actions on a TreeSet/Set (model values are all 1)"""
     op = a['op']
+    if op.startswith('bad'):
+        return _bad(t, emb, a, variant, True)
     k = emb.key(a['k']) if a['k'] else None
     try:
         if op == 'setitem':
